@@ -1,7 +1,734 @@
-//! C19 harness (stub until built)
+//! C19: layout-consistency validation. Compiles generated programs whose buffer element types are the
+//! request's types with `validate_layout_consistency(true)` and judges the verdict with two independent
+//! reference layout calculators (HLSL structured-buffer packing, Metal struct layout).
+//!
+//! request : C19.check \t <use> \t <type>;<type>;...
+//!   use   : sb | rwsb | bload | rwbload | rwbstore | baload | rwbaload | rwbastore
+//!   type  : h i u f d b            scalar half/int/uint/float/double/bool
+//!           f3                      vector          f2x3  matrix
+//!           ei eu                   enum with underlying int / uint
+//!           [N type]                array of N elements
+//!           {type type ...}         struct (members in order)
+//! observe : ok | unknown@K | mismatch@K hlsl=SIZE/ALIGN metal=SIZE/ALIGN | panic:<message>
+//!           | error:<first line of an unexpected compile error>
+//!   (K = index of the blamed type in the request, `?` when the message carries no location)
 use crate::util::*;
 
-pub fn run(_args: &Args, _out: &mut Out) {
-    eprintln!("C19: harness not built yet");
-    std::process::exit(2);
+#[derive(Clone, Debug, PartialEq)]
+pub enum Ty {
+    Scalar(char),
+    Vec(char, u32),
+    Mat(char, u32, u32),
+    Enum(bool),
+    Arr(Box<Ty>, u64),
+    Struct(Vec<Ty>),
+}
+
+const USES: &[&str] = &[
+    "sb", "rwsb", "bload", "rwbload", "rwbstore", "baload", "rwbaload", "rwbastore",
+];
+
+// ------------------------------------------------------------------------------------------------
+// type syntax
+// ------------------------------------------------------------------------------------------------
+pub fn show(t: &Ty) -> String {
+    match t {
+        Ty::Scalar(c) => c.to_string(),
+        Ty::Vec(c, n) => format!("{}{}", c, n),
+        Ty::Mat(c, r, k) => format!("{}{}x{}", c, r, k),
+        Ty::Enum(false) => "ei".into(),
+        Ty::Enum(true) => "eu".into(),
+        Ty::Arr(t, n) => format!("[{} {}]", n, show(t)),
+        Ty::Struct(ms) => format!("{{{}}}", ms.iter().map(show).collect::<Vec<_>>().join(" ")),
+    }
+}
+
+fn tokens(s: &str) -> Vec<String> {
+    let mut out = Vec::new();
+    let mut cur = String::new();
+    for c in s.chars() {
+        if "{}[]".contains(c) || c.is_whitespace() {
+            if !cur.is_empty() {
+                out.push(std::mem::take(&mut cur));
+            }
+            if !c.is_whitespace() {
+                out.push(c.to_string());
+            }
+        } else {
+            cur.push(c);
+        }
+    }
+    if !cur.is_empty() {
+        out.push(cur);
+    }
+    out
+}
+
+fn parse_ty(toks: &[String], i: &mut usize) -> Option<Ty> {
+    let t = toks.get(*i)?.clone();
+    *i += 1;
+    match t.as_str() {
+        "{" => {
+            let mut ms = Vec::new();
+            while toks.get(*i)? != "}" {
+                ms.push(parse_ty(toks, i)?);
+            }
+            *i += 1;
+            Some(Ty::Struct(ms))
+        }
+        "[" => {
+            let n: u64 = toks.get(*i)?.parse().ok()?;
+            *i += 1;
+            let e = parse_ty(toks, i)?;
+            if toks.get(*i)? != "]" {
+                return None;
+            }
+            *i += 1;
+            Some(Ty::Arr(Box::new(e), n))
+        }
+        "ei" => Some(Ty::Enum(false)),
+        "eu" => Some(Ty::Enum(true)),
+        w => {
+            let cs: Vec<char> = w.chars().collect();
+            if !"hiufdb".contains(cs[0]) {
+                return None;
+            }
+            let d = |c: char| c.to_digit(10);
+            match cs.len() {
+                1 => Some(Ty::Scalar(cs[0])),
+                2 => Some(Ty::Vec(cs[0], d(cs[1])?)),
+                4 if cs[2] == 'x' => Some(Ty::Mat(cs[0], d(cs[1])?, d(cs[3])?)),
+                _ => None,
+            }
+        }
+    }
+}
+
+pub fn parse_types(s: &str) -> Option<Vec<Ty>> {
+    let mut out = Vec::new();
+    for part in s.split(';') {
+        let toks = tokens(part);
+        let mut i = 0;
+        let t = parse_ty(&toks, &mut i)?;
+        if i != toks.len() {
+            return None;
+        }
+        out.push(t);
+    }
+    Some(out)
+}
+
+// ------------------------------------------------------------------------------------------------
+// source text
+// ------------------------------------------------------------------------------------------------
+fn scalar_name(c: char) -> &'static str {
+    match c {
+        'h' => "half",
+        'i' => "int",
+        'u' => "uint",
+        'f' => "float",
+        'd' => "double",
+        _ => "bool",
+    }
+}
+
+struct Src {
+    lines: Vec<String>,
+    next: usize,
+}
+
+impl Src {
+    /// spelling of a type usable as a template argument / declaration specifier, plus array suffix
+    fn spell(&mut self, t: &Ty) -> (String, String) {
+        match t {
+            Ty::Scalar(c) => (scalar_name(*c).into(), String::new()),
+            Ty::Vec(c, n) => (format!("{}{}", scalar_name(*c), n), String::new()),
+            Ty::Mat(c, r, k) => (format!("{}{}x{}", scalar_name(*c), r, k), String::new()),
+            Ty::Enum(unsigned) => {
+                let id = self.next;
+                self.next += 1;
+                let init = if *unsigned { " = 4294967295" } else { "" };
+                self.lines.push(format!("enum E{} {{ E{}_A{} }};", id, id, init));
+                (format!("E{}", id), String::new())
+            }
+            Ty::Arr(e, n) => {
+                let (base, suffix) = self.spell(e);
+                (base, format!("[{}]{}", n, suffix))
+            }
+            Ty::Struct(ms) => {
+                let mut body = String::new();
+                for (k, m) in ms.iter().enumerate() {
+                    let (base, suffix) = self.spell(m);
+                    body.push_str(&format!(" {} m{}{};", base, k, suffix));
+                }
+                let id = self.next;
+                self.next += 1;
+                self.lines.push(format!("struct S{} {{{} }};", id, body));
+                (format!("S{}", id), String::new())
+            }
+        }
+    }
+}
+
+/// program text and, per request type, the 1-based line a diagnostic about it points at
+pub fn source(usage: &str, tys: &[Ty]) -> (String, Vec<usize>) {
+    let mut s = Src { lines: Vec::new(), next: 0 };
+    let mut blame = Vec::new();
+    let mut names = Vec::new();
+    for t in tys {
+        let (base, suffix) = s.spell(t);
+        // arrays cannot be template arguments; the generators never put one at the top
+        names.push(format!("{}{}", base, suffix));
+        blame.push(s.lines.len()); // line of the struct definition (if it is one)
+    }
+    match usage {
+        "sb" | "rwsb" => {
+            let obj = if usage == "sb" { "StructuredBuffer" } else { "RWStructuredBuffer" };
+            for (k, n) in names.iter().enumerate() {
+                s.lines.push(format!("{}<{}> g{};", obj, n, k));
+                blame[k] = s.lines.len();
+            }
+            s.lines.push("void main() {}".into());
+        }
+        _ => {
+            let obj = match usage {
+                "bload" => "ByteAddressBuffer",
+                "rwbload" | "rwbstore" => "RWByteAddressBuffer",
+                "baload" => "BufferAddress",
+                _ => "RWBufferAddress",
+            };
+            s.lines.push(format!("{} gb;", obj));
+            s.lines.push("void main() {".into());
+            for (k, n) in names.iter().enumerate() {
+                if usage.ends_with("store") {
+                    s.lines.push(format!("  {} v{}; gb.Store(0, v{});", n, k, k));
+                } else {
+                    s.lines.push(format!("  {} v{} = gb.Load<{}>(0);", n, k, n));
+                }
+            }
+            s.lines.push("}".into());
+        }
+    }
+    (s.lines.join("\n") + "\n", blame)
+}
+
+// ------------------------------------------------------------------------------------------------
+// the real code
+// ------------------------------------------------------------------------------------------------
+pub enum Real {
+    Accepted,
+    /// layout check passed but a later stage failed (compile() did not succeed)
+    AcceptedThenError(String),
+    Unknown(Option<usize>),
+    Mismatch(Option<usize>, [u64; 4]),
+    Error(String),
+    Panic(String),
+}
+
+fn run_real(src: &str, blame: &[usize]) -> Real {
+    let text = src.to_string();
+    let r = guard(move || {
+        let mut files = [("main.rssl", text.as_str())];
+        let args = rssl::CompileArgs::new("main.rssl", &mut files, rssl::Target::HlslForVulkan)
+            .no_pipeline_mode()
+            .support_buffer_address(true)
+            .validate_layout_consistency(true);
+        match rssl::compile(args) {
+            Ok(_) => Ok(()),
+            Err(e) => Err(format!("{}", e)),
+        }
+    });
+    let msg = match r {
+        Err(p) => return Real::Panic(p),
+        Ok(Ok(())) => return Real::Accepted,
+        Ok(Err(m)) => m,
+    };
+    if std::env::var("C19_DEBUG").is_ok() {
+        eprintln!("--- source\n{}--- message\n{}", src, msg);
+    }
+    let index = |m: &str| -> Option<usize> {
+        // "main.rssl:LINE:COL: error: ..."
+        let a = m.find("main.rssl:")? + "main.rssl:".len();
+        let b = a + m[a..].find(|c: char| !c.is_ascii_digit())?;
+        let line: usize = m[a..b].parse().ok()?;
+        blame.iter().position(|l| *l == line)
+    };
+    if msg.contains("struct has unknown size") {
+        return Real::Unknown(index(&msg));
+    }
+    if let Some(p) = msg.find("struct has size=") {
+        let nums: Vec<u64> = msg[p..]
+            .split(|c: char| !c.is_ascii_digit())
+            .filter(|s| !s.is_empty())
+            .take(4)
+            .filter_map(|s| s.parse().ok())
+            .collect();
+        if nums.len() == 4 {
+            return Real::Mismatch(index(&msg), [nums[0], nums[1], nums[2], nums[3]]);
+        }
+    }
+    // an error that does not come from the layout checker: did the layout check itself pass?
+    let text = src.to_string();
+    let direct = guard(move || match front_end_src(&text) {
+        Ok(ir) => Some(rssl::ir::layout_checker::check_layout(&ir).is_ok()),
+        Err(_) => None,
+    });
+    match direct {
+        Ok(Some(true)) => Real::AcceptedThenError(msg.lines().next().unwrap_or("").to_string()),
+        _ => Real::Error(msg.lines().next().unwrap_or("").to_string()),
+    }
+}
+
+fn show_k(k: Option<usize>) -> String {
+    k.map(|k| k.to_string()).unwrap_or_else(|| "?".into())
+}
+
+fn show_real(r: &Real) -> String {
+    match r {
+        Real::Accepted | Real::AcceptedThenError(_) => "ok".into(),
+        Real::Unknown(k) => format!("unknown@{}", show_k(*k)),
+        Real::Mismatch(k, n) => format!(
+            "mismatch@{} hlsl={}/{} metal={}/{}",
+            show_k(*k), n[0], n[1], n[2], n[3]
+        ),
+        Real::Error(m) => format!("error:{}", m),
+        Real::Panic(p) => {
+            let msg = p.splitn(2, ": ").nth(1).unwrap_or(p);
+            format!("panic:{}", msg)
+        }
+    }
+}
+
+// ------------------------------------------------------------------------------------------------
+// independent reference layout calculators (the property's own words)
+// ------------------------------------------------------------------------------------------------
+#[derive(Clone, Copy, PartialEq)]
+pub enum Rule {
+    HlslSB,
+    Metal,
+}
+
+#[derive(Clone, Debug, PartialEq)]
+pub struct RefLayout {
+    pub size: u64,
+    pub align: u64,
+    /// (path, absolute byte offset) of every field, recursively, in declaration order
+    pub fields: Vec<(String, u64)>,
+    /// some struct strictly below the top needs tail padding
+    pub inner_tail_pad: bool,
+}
+
+fn up(x: u64, a: u64) -> u64 {
+    x.div_ceil(a) * a
+}
+
+fn scalar_bytes(c: char) -> Option<u64> {
+    match c {
+        'h' => Some(2),
+        'i' | 'u' | 'f' => Some(4),
+        'd' => Some(8),
+        _ => None,
+    }
+}
+
+/// returns (size, align, fields relative to the start, needs tail padding somewhere at-or-below)
+fn reference(rule: Rule, t: &Ty, path: &str, top: bool) -> Option<(u64, u64, Vec<(String, u64)>, bool, bool)> {
+    // (size, align, fields, self_tail_pad, inner_tail_pad)
+    match t {
+        Ty::Scalar(c) => {
+            let b = scalar_bytes(*c)?;
+            Some((b, b, vec![], false, false))
+        }
+        Ty::Enum(_) => Some((4, 4, vec![], false, false)),
+        Ty::Vec(c, n) => {
+            let b = scalar_bytes(*c)?;
+            if *n < 1 || *n > 4 {
+                return None;
+            }
+            let n = *n as u64;
+            match rule {
+                Rule::HlslSB => Some((n * b, b, vec![], false, false)),
+                Rule::Metal => {
+                    let lanes = if n == 3 { 4 } else { n };
+                    Some((lanes * b, lanes * b, vec![], false, false))
+                }
+            }
+        }
+        Ty::Mat(..) => None,
+        Ty::Arr(e, n) => {
+            let (es, ea, ef, self_pad, inner_pad) = reference(rule, e, "", false)?;
+            let stride = up(es, ea);
+            let mut fields = Vec::new();
+            for k in 0..*n {
+                let base = k * stride;
+                fields.push((format!("{}[{}]", path, k), base));
+                for (p, o) in &ef {
+                    fields.push((format!("{}[{}]{}", path, k, p), base + o));
+                }
+            }
+            let _ = top;
+            Some((n * stride, ea, fields, false, self_pad || inner_pad))
+        }
+        Ty::Struct(ms) => {
+            if ms.is_empty() {
+                return None;
+            }
+            let mut cur = 0u64;
+            let mut align = 1u64;
+            let mut fields = Vec::new();
+            let mut inner = false;
+            for (k, m) in ms.iter().enumerate() {
+                let (s, a, f, self_pad, inner_pad) = reference(rule, m, "", false)?;
+                let off = up(cur, a);
+                let name = format!("{}.m{}", path, k);
+                fields.push((name.clone(), off));
+                for (p, o) in f {
+                    fields.push((format!("{}{}", name, p), off + o));
+                }
+                cur = off + s;
+                align = align.max(a);
+                inner |= self_pad || inner_pad;
+            }
+            let size = up(cur, align);
+            Some((size, align, fields, size != cur, inner))
+        }
+    }
+}
+
+pub fn ref_layout(rule: Rule, t: &Ty) -> Option<RefLayout> {
+    let (size, align, fields, _self_pad, inner) = reference(rule, t, "", true)?;
+    Some(RefLayout { size, align, fields, inner_tail_pad: inner })
+}
+
+/// first difference between the two reference layouts, if any
+fn difference(h: &RefLayout, m: &RefLayout) -> Option<String> {
+    if h.size != m.size {
+        return Some(format!("size {} vs {}", h.size, m.size));
+    }
+    for ((p, a), (_, b)) in h.fields.iter().zip(&m.fields) {
+        if a != b {
+            return Some(format!("offset of {} {} vs {}", p, a, b));
+        }
+    }
+    None
+}
+
+/// The property's oracle on the real verdict. Returns the oracle string and a statistics class.
+fn oracle(tys: &[Ty], real: &Real) -> (String, &'static str) {
+    match real {
+        Real::Accepted | Real::AcceptedThenError(_) => {
+            // every element type must have identical reference layouts
+            for t in tys {
+                if !matches!(t, Ty::Struct(_)) {
+                    continue; // the property speaks about structures used as element types
+                }
+                let (h, m) = match (ref_layout(Rule::HlslSB, t), ref_layout(Rule::Metal, t)) {
+                    (Some(h), Some(m)) => (h, m),
+                    _ => return (format!("FAIL:accepted/no-reference-layout {}", show(t)), "accepted-unknown"),
+                };
+                if let Some(d) = difference(&h, &m) {
+                    let class = if h.inner_tail_pad || m.inner_tail_pad {
+                        "nested-tail-pad"
+                    } else if h.size == m.size {
+                        "offsets-only"
+                    } else {
+                        "sizes"
+                    };
+                    if let Real::AcceptedThenError(e) = real {
+                        // compile() as a whole did not succeed: the property's premise is false
+                        return (format!("SKIP:layout check accepted a differing type but a later stage failed: {}", e), "accepted-then-error");
+                    }
+                    return (
+                        format!("FAIL:accepted/{} {} differs: {}", class, show(t), d),
+                        if class == "nested-tail-pad" { "accepted-differ-nested" } else if class == "offsets-only" { "accepted-differ-offsets" } else { "accepted-differ-sizes" },
+                    );
+                }
+            }
+            if let Real::AcceptedThenError(_) = real {
+                return ("ok".into(), "accepted-then-error");
+            }
+            ("ok".into(), "accepted-agree")
+        }
+        Real::Mismatch(k, n) => {
+            let k = match k {
+                Some(k) if *k < tys.len() => *k,
+                _ if tys.len() == 1 => 0,
+                _ => return ("SKIP:cannot tell which type was rejected".into(), "rejected-unlocated"),
+            };
+            let t = &tys[k];
+            if !matches!(t, Ty::Struct(_)) {
+                return ("ok".into(), "rejected-non-struct");
+            }
+            match (ref_layout(Rule::HlslSB, t), ref_layout(Rule::Metal, t)) {
+                (Some(h), Some(m)) => {
+                    if n[0] != h.size || n[2] != m.size {
+                        let class = if h.inner_tail_pad || m.inner_tail_pad { "nested-tail-pad" } else { "sizes" };
+                        (
+                            format!(
+                                "FAIL:rejected/{} {} reported hlsl={} metal={} but true sizes are hlsl={} metal={}",
+                                class, show(t), n[0], n[2], h.size, m.size
+                            ),
+                            if class == "nested-tail-pad" { "rejected-wrong-size-nested" } else { "rejected-wrong-size" },
+                        )
+                    } else if difference(&h, &m).is_none() {
+                        ("ok".into(), "rejected-though-agree")
+                    } else {
+                        ("ok".into(), "rejected-true-sizes")
+                    }
+                }
+                _ => (format!("FAIL:rejected/no-reference-layout {}", show(t)), "rejected-unknown"),
+            }
+        }
+        Real::Unknown(_) => {
+            // no sizes are reported; fine when some type has no reference layout
+            let any_none = tys
+                .iter()
+                .any(|t| ref_layout(Rule::HlslSB, t).is_none() || ref_layout(Rule::Metal, t).is_none());
+            if any_none {
+                ("ok".into(), "unknown-size")
+            } else {
+                ("ok".into(), "unknown-size-though-known")
+            }
+        }
+        Real::Error(e) => (format!("SKIP:compile error outside the layout checker: {}", e), "other-error"),
+        // panics are C08's subject; C19 only needs the model to predict them
+        Real::Panic(_) => ("ok".into(), "panic"),
+    }
+}
+
+// ------------------------------------------------------------------------------------------------
+// running and statistics
+// ------------------------------------------------------------------------------------------------
+fn depth(t: &Ty) -> usize {
+    match t {
+        Ty::Struct(ms) => 1 + ms.iter().map(depth).max().unwrap_or(0),
+        Ty::Arr(e, _) => depth(e),
+        _ => 0,
+    }
+}
+
+fn note_shape(t: &Ty, hist: &mut Hist, top: bool) {
+    match t {
+        Ty::Scalar(c) => hist.add(&format!("leaf:{}", scalar_name(*c))),
+        Ty::Vec(c, n) => {
+            hist.add(&format!("leaf:{}", scalar_name(*c)));
+            hist.add(&format!("vec:{}", n));
+        }
+        Ty::Mat(..) => hist.add("leaf:matrix"),
+        Ty::Enum(_) => hist.add("leaf:enum"),
+        Ty::Arr(e, n) => {
+            hist.add(&format!("array-len:{}", n));
+            hist.add(match **e {
+                Ty::Struct(_) => "array-of:struct",
+                Ty::Arr(..) => "array-of:array",
+                Ty::Vec(..) => "array-of:vector",
+                _ => "array-of:scalar",
+            });
+            note_shape(e, hist, false);
+        }
+        Ty::Struct(ms) => {
+            if top {
+                hist.add(&format!("members:{}", ms.len()));
+            } else {
+                hist.add("nested-struct");
+            }
+            for m in ms {
+                note_shape(m, hist, false);
+            }
+        }
+    }
+}
+
+fn run_one(usage: &str, tys: &[Ty], out: &mut Out, hist: &mut Hist) {
+    let req = format!(
+        "C19.check\t{}\t{}",
+        usage,
+        tys.iter().map(show).collect::<Vec<_>>().join(";")
+    );
+    let (src, blame) = source(usage, tys);
+    let real = run_real(&src, &blame);
+    let (orc, class) = oracle(tys, &real);
+    hist.add(&format!("use:{}", usage));
+    hist.add(&format!("class:{}", class));
+    hist.add(&format!("types:{}", tys.len()));
+    for t in tys {
+        hist.add(&format!("depth:{}", depth(t)));
+        note_shape(t, hist, true);
+    }
+    out.case(&req, &show_real(&real), &orc);
+}
+
+// ------------------------------------------------------------------------------------------------
+// generators
+// ------------------------------------------------------------------------------------------------
+const SCALARS: &[char] = &['h', 'i', 'u', 'f', 'd'];
+
+fn leaves() -> Vec<Ty> {
+    let mut v = Vec::new();
+    for c in SCALARS {
+        v.push(Ty::Scalar(*c));
+        for n in 2..=4 {
+            v.push(Ty::Vec(*c, n));
+        }
+    }
+    v.push(Ty::Enum(false));
+    v
+}
+
+fn random_leaf(rng: &mut Rng) -> Ty {
+    match rng.below(20) {
+        0 => Ty::Enum(rng.chance(1, 4)),
+        1..=8 => Ty::Scalar(*rng.pick(SCALARS)),
+        _ => Ty::Vec(*rng.pick(SCALARS), rng.range(2, 4) as u32),
+    }
+}
+
+fn random_member(rng: &mut Rng, depth_left: u32) -> Ty {
+    let t = if depth_left > 0 && rng.chance(1, 4) {
+        random_struct(rng, depth_left - 1, 4)
+    } else {
+        random_leaf(rng)
+    };
+    if rng.chance(1, 5) {
+        let inner = Ty::Arr(Box::new(t), rng.range(1, 4) as u64);
+        if rng.chance(1, 8) {
+            Ty::Arr(Box::new(inner), rng.range(1, 3) as u64)
+        } else {
+            inner
+        }
+    } else {
+        t
+    }
+}
+
+/// struct of nesting depth <= depth_left + 1 with 1..=max_members members
+fn random_struct(rng: &mut Rng, depth_left: u32, max_members: i64) -> Ty {
+    let n = rng.range(1, max_members);
+    Ty::Struct((0..n).map(|_| random_member(rng, depth_left)).collect())
+}
+
+/// structs biased towards the interesting region: member sizes that sum to equal totals
+fn random_tight_struct(rng: &mut Rng) -> Ty {
+    // few distinct scalar types, vectors of 2 and 4, so that both rules often give the same size
+    let pool: Vec<Ty> = match rng.below(3) {
+        0 => vec![Ty::Scalar('f'), Ty::Vec('f', 2), Ty::Vec('f', 4), Ty::Scalar('d'), Ty::Scalar('u')],
+        1 => vec![Ty::Scalar('h'), Ty::Vec('h', 2), Ty::Vec('h', 4), Ty::Scalar('f'), Ty::Vec('h', 3)],
+        _ => vec![Ty::Scalar('i'), Ty::Vec('u', 2), Ty::Vec('d', 2), Ty::Scalar('d'), Ty::Vec('f', 3), Ty::Scalar('f')],
+    };
+    let n = rng.range(2, 6);
+    let mut ms: Vec<Ty> = (0..n).map(|_| rng.pick(&pool).clone()).collect();
+    if rng.chance(1, 3) {
+        let k = rng.below(ms.len() as u64) as usize;
+        let inner_n = rng.range(1, 3);
+        ms[k] = Ty::Struct((0..inner_n).map(|_| rng.pick(&pool).clone()).collect());
+    }
+    if rng.chance(1, 6) {
+        let k = rng.below(ms.len() as u64) as usize;
+        ms[k] = Ty::Arr(Box::new(ms[k].clone()), rng.range(1, 4) as u64);
+    }
+    Ty::Struct(ms)
+}
+
+pub fn run(args: &Args, out: &mut Out) {
+    let mut hist = Hist::default();
+    if let Some(lines) = args.request_lines() {
+        for line in lines {
+            let f: Vec<&str> = line.split('\t').collect();
+            if f.len() != 3 || f[0] != "C19.check" || !USES.contains(&f[1]) {
+                out.case(&line, "bad-request", "SKIP:bad request");
+                continue;
+            }
+            match parse_types(f[2]) {
+                Some(tys) => run_one(f[1], &tys, out, &mut hist),
+                None => out.case(&line, "bad-request", "SKIP:bad request"),
+            }
+        }
+        out.stat(&format!("{{\"stream\":\"requests\",\"hist\":{}}}", hist.json()));
+        return;
+    }
+    let mut rng = Rng::new(args.seed);
+    let thorough = args.thorough();
+    let lv = leaves();
+
+    // 1. every leaf type on its own and every flat struct with 1 and 2 members (exhaustive)
+    for a in &lv {
+        if !matches!(a, Ty::Enum(_)) {
+            // an enum cannot be a structured buffer's element type
+            run_one("sb", &[a.clone()], out, &mut hist);
+        }
+        run_one("sb", &[Ty::Struct(vec![a.clone()])], out, &mut hist);
+    }
+    for a in &lv {
+        for b in &lv {
+            run_one("sb", &[Ty::Struct(vec![a.clone(), b.clone()])], out, &mut hist);
+        }
+    }
+    // 2. three members: exhaustive in the thorough tier, a sample otherwise
+    let mut triples = Vec::new();
+    for a in &lv {
+        for b in &lv {
+            for c in &lv {
+                triples.push(Ty::Struct(vec![a.clone(), b.clone(), c.clone()]));
+            }
+        }
+    }
+    let n3 = if thorough { triples.len() } else { 600 };
+    for k in 0..n3 {
+        let t = if thorough { triples[k].clone() } else { rng.pick(&triples).clone() };
+        run_one("sb", &[t], out, &mut hist);
+    }
+    // 3. depth 2: { {a b} c }, { c {a b} }, { [n {a b}] }, { [n a] b } over a reduced alphabet
+    let small: Vec<Ty> = vec![
+        Ty::Scalar('h'), Ty::Scalar('f'), Ty::Scalar('d'), Ty::Vec('h', 2), Ty::Vec('f', 2),
+        Ty::Vec('f', 3), Ty::Vec('f', 4), Ty::Vec('h', 3), Ty::Enum(false),
+    ];
+    let mut d2 = Vec::new();
+    for a in &small {
+        for b in &small {
+            let inner = Ty::Struct(vec![a.clone(), b.clone()]);
+            for c in &small {
+                d2.push(Ty::Struct(vec![inner.clone(), c.clone()]));
+                d2.push(Ty::Struct(vec![c.clone(), inner.clone()]));
+            }
+            for n in 1..=4u64 {
+                d2.push(Ty::Struct(vec![Ty::Arr(Box::new(inner.clone()), n)]));
+                d2.push(Ty::Struct(vec![Ty::Arr(Box::new(a.clone()), n), b.clone()]));
+            }
+        }
+    }
+    let nd2 = if thorough { d2.len() } else { 500 };
+    for k in 0..nd2 {
+        let t = if thorough { d2[k].clone() } else { rng.pick(&d2).clone() };
+        run_one("sb", &[t], out, &mut hist);
+    }
+    // 4. random structs to depth 3 with 1-6 members, arrays 1-4, nested structs, enums; all uses
+    let n = args.n.unwrap_or(if thorough { 150000 } else { 2500 });
+    for k in 0..n {
+        let usage = if k % 3 == 0 { *rng.pick(USES) } else { "sb" };
+        let count = if rng.chance(1, 8) { rng.range(2, 3) } else { 1 };
+        let mut tys = Vec::new();
+        for _ in 0..count {
+            let t = match rng.below(10) {
+                0..=3 => random_tight_struct(&mut rng),
+                4..=8 => random_struct(&mut rng, 2, 6),
+                _ => random_struct(&mut rng, 1, 3),
+            };
+            tys.push(t);
+        }
+        // now and then a member without a layout (bool / matrix): the "unknown size" verdict
+        if rng.chance(1, 40) {
+            if let Ty::Struct(ms) = &mut tys[0] {
+                let bad = if rng.chance(1, 2) { Ty::Scalar('b') } else { Ty::Mat('f', 2, 2) };
+                let at = rng.below(ms.len() as u64 + 1) as usize;
+                ms.insert(at, bad);
+            }
+        }
+        run_one(usage, &tys, out, &mut hist);
+    }
+    out.stat(&format!(
+        "{{\"stream\":\"generated\",\"tier\":{},\"seed\":{},\"hist\":{}}}",
+        json_str(&args.tier),
+        args.seed,
+        hist.json()
+    ));
 }
